@@ -182,7 +182,7 @@ def evaluate(e, env, tabs):
     elif op == "sum3":
         r = evaluate(e[1], env, tabs).sum_natural_parameters(evaluate(e[2], env, tabs), evaluate(e[3], env, tabs))
     elif op == "sum3n":
-        r = evaluate(e[1], env, tabs).sum_natural_parameters([evaluate(e[2], env, tabs), [evaluate(e[3], env, tabs)]])
+        r = evaluate(e[1], env, tabs).sum_natural_parameters([evaluate(e[2], env, tabs), evaluate(e[3], env, tabs)])
     elif op == "zeros":
         r = evaluate(e[1], env, tabs).zeros_like()
     elif op == "fromnat":
@@ -268,13 +268,16 @@ def mirror_project(fam, scalar, X, LW, tabs):
         except ValueError:
             pass
     if fam == "beta":
-        if scalar:
-            a, b = inv_beta_suffstats(np.float64(s1s[0]), np.float64(s2s[0]))
-            a, b = [a], [b]
-        else:
-            a, b = inv_beta_suffstats(np.array(s1s), np.array(s2s))
-        for k1, k2, va, vb in zip(s1s, s2s, a, b):
-            tabs.ib[(hexf(k1), hexf(k2))] = (hexf(va), hexf(vb))
+        try:
+            if scalar:
+                a, b = inv_beta_suffstats(np.float64(s1s[0]), np.float64(s2s[0]))
+                a, b = [a], [b]
+            else:
+                a, b = inv_beta_suffstats(np.array(s1s), np.array(s2s))
+            for k1, k2, va, vb in zip(s1s, s2s, a, b):
+                tabs.ib[(hexf(k1), hexf(k2))] = (hexf(va), hexf(vb))
+        except ValueError:
+            pass   # the Newton step of inv_beta_suffstats does not run with this numpy: no oracle values
 
 
 def run_proj(c):
